@@ -32,6 +32,7 @@ func init() {
 		timerNilSafe(c, "C09.3a")
 		c09DecodedPointers(c)
 		c09NilContradiction(c)
+		c09SharedCaptureNotReassigned(c, "C09.16")
 		c09CloseOnce(c)
 		c09AcceptTimerCoversHandshake(c)
 		c09EventSignatures(c)
@@ -1062,4 +1063,96 @@ func c09AcceptTimerCoversHandshake(c *core.Ctx) {
 		c.Check(R, keyf("%s/%s-under-the-accept-timer", srvOnWT, cl.Name), cl.Pos(), !late, "this blocking read cannot run after the accept timer was cancelled")
 	}
 	c.Need(R, "blocking reads of the WebTransport handshake", n, 4)
+}
+
+// C09.16 — a variable shared by callbacks is not re-assigned by one of them.
+// Listener, timer and goroutine closures of one function run on different
+// goroutines (transport reader, poll handler, timer). A captured pointer /
+// interface variable that one of them assigns (typically `x = nil` "to drop the
+// reference") while another calls methods on it is a data race whose benign
+// looking outcome is a nil dereference: the reader's nil test, when there is
+// one, and its use are two separate loads.
+func c09SharedCaptureNotReassigned(c *core.Ctx, R string) {
+	c.Rule(R, "captured variables shared between callbacks: inside the closures of a function (listeners, timer callbacks, goroutines — they run on different goroutines) no assignment targets a pointer / interface variable of the enclosing function that another closure of the same function dereferences (method call, field access) — `transport = nil` in one callback against `s.setTransport(transport)` / `transport.ReadyState()` in another is a nil dereference under the right interleaving")
+	n := 0
+	for _, root := range c.P.Units {
+		if root.Parent != nil || len(root.Kids) == 0 {
+			continue
+		}
+		info := root.Info()
+		lits := root.AllUnits()[1:]
+		type use struct {
+			u   *core.Unit
+			pos token.Pos
+		}
+		writes, reads := map[types.Object][]use{}, map[types.Object][]use{}
+		isShared := func(o types.Object) bool {
+			v, ok := o.(*types.Var)
+			if !ok || v.IsField() || v.Pkg() == nil || v.Parent() == v.Pkg().Scope() {
+				return false
+			}
+			if o.Pos() < root.Pos() || o.Pos() > root.Body.End() {
+				return false
+			}
+			switch v.Type().Underlying().(type) {
+			case *types.Pointer, *types.Interface:
+				return true
+			}
+			return false
+		}
+		for _, k := range lits {
+			declaredIn := func(o types.Object) bool { return o.Pos() >= k.Body.Pos() && o.Pos() <= k.Body.End() }
+			ast.Inspect(k.Body, func(nd ast.Node) bool {
+				switch x := nd.(type) {
+				case *ast.FuncLit:
+					return false
+				case *ast.AssignStmt:
+					if x.Tok != token.ASSIGN {
+						return true
+					}
+					for _, l := range x.Lhs {
+						if id, ok := l.(*ast.Ident); ok {
+							if o := info.Uses[id]; o != nil && isShared(o) && !declaredIn(o) {
+								writes[o] = append(writes[o], use{k, id.Pos()})
+							}
+						}
+					}
+				case *ast.SelectorExpr:
+					if id, ok := ast.Unparen(x.X).(*ast.Ident); ok {
+						if o := info.Uses[id]; o != nil && isShared(o) && !declaredIn(o) {
+							reads[o] = append(reads[o], use{k, id.Pos()})
+						}
+					}
+				case *ast.CallExpr:
+					for _, a := range x.Args {
+						if id, ok := ast.Unparen(a).(*ast.Ident); ok {
+							if o := info.Uses[id]; o != nil && isShared(o) && !declaredIn(o) {
+								reads[o] = append(reads[o], use{k, id.Pos()})
+							}
+						}
+					}
+				}
+				return true
+			})
+		}
+		for o, ws := range writes {
+			for _, w := range ws {
+				other := ""
+				for _, r := range reads[o] {
+					if r.u != w.u {
+						other = r.u.Key
+					}
+				}
+				n++
+				c.Check(R, keyf("%s/assigns-shared(%s)", w.u.Key, core.CanonName(o)), w.pos, other == "",
+					keyf("%s is assigned here and dereferenced in %s, which runs on another goroutine", o.Name(), other))
+			}
+		}
+		for o := range reads {
+			if len(writes[o]) == 0 {
+				n++
+			}
+		}
+	}
+	c.Need(R, "pointer / interface variables shared by callbacks", n, 10)
 }
